@@ -325,6 +325,29 @@ func TestGrid(t *testing.T) {
 			checker.Run(t, Case{Words: w, Style: "grid"})
 		}
 	}
+	// lengths around every power of two up to 1024 words (index lengths that coincide with the
+	// capacity steps of any growing or pooled buffer), dense and mixed content
+	if shard == 0 {
+		for k := 0; k <= 10; k++ {
+			for d := -2; d <= 2; d++ {
+				n := 1<<uint(k) + d
+				if n < 0 {
+					continue
+				}
+				for style := 0; style < 2; style++ {
+					w := make(vk.Words, n)
+					for i := range w {
+						if style == 0 {
+							w[i] = ^uint64(0)
+						} else {
+							w[i] = vk.Mix(uint64(n)*977 + uint64(i))
+						}
+					}
+					checker.Run(t, Case{Words: w, Style: "grid-pow2-length"})
+				}
+			}
+		}
+	}
 	// a few very large bitmaps in every run (ranks above 2^16 / 2^22; size thresholds of any fast path)
 	if shard == 0 {
 		for style := 0; style <= 5; style++ {
